@@ -403,6 +403,23 @@ func genCheckSchema(r *Rng, o *Out) *jsonapi.Schema {
 		}
 		t.Rels[k] = rel
 	}
+	// not a fault: a relationship stored under a map key that is not its name (hand-built
+	// types; the property speaks of relationships, not of map keys)
+	if r.chance(1, 4) {
+		t := &s.Types[r.IntN(len(s.Types))]
+		keys := make([]string, 0, len(t.Rels))
+		for k := range t.Rels {
+			keys = append(keys, k)
+		}
+		sort.Strings(keys)
+		if len(keys) > 0 {
+			k := keys[r.IntN(len(keys))]
+			rel := t.Rels[k]
+			delete(t.Rels, k)
+			t.Rels["key-"+k] = rel
+			o.stat("rekeyed")
+		}
+	}
 	return s
 }
 
